@@ -344,6 +344,17 @@ HAZARD_TEXTS = [
 ]
 
 
+# files given as bytes: empty, END only, byte-order mark, Latin-1 bytes that are
+# not UTF-8, lone CR line ends, NULs, UTF-16
+HAZARD_BYTES = [
+    b"", b"END", b"END\n", b"\n\n", b"\xef\xbb\xbfa = 1\nEND\n", b"a = 1\r\nb = 2\r\nEND\r\n",
+    b"a = 1\rb = 2\rEND\r", b'a = "25\xb0"\nEND\n', b"a = 25 <\xb5m>\nEND\n",
+    b"a = 1\nEND\n\x00\x00\x00", b"a = 1\x00\nEND\n", "a = 1\nEND\n".encode("utf-16"),
+    b"/* only a comment */\n", b"a = 1 /* unterminated\nEND\n", b"a = 'x\nEND\n",
+    b"a = 1\nEND\n" + bytes(range(256)),
+]
+
+
 def make_files(pvl, tmp, rng, tier, part, nparts):
     """Yield (path, file id, kind)."""
     n = 60 if tier == "quick" else 2000
@@ -356,6 +367,11 @@ def make_files(pvl, tmp, rng, tier, part, nparts):
             with open(path, "w") as f:
                 f.write(HAZARD_TEXTS[hi])
             yield path, f"hazard:{hi}", "hazard"
+        for bi in rng.sample(range(len(HAZARD_BYTES)), len(HAZARD_BYTES)):
+            path = os.path.join(tmp, f"hb{rep}_{bi}.lbl")
+            with open(path, "wb") as f:
+                f.write(HAZARD_BYTES[bi])
+            yield path, f"hazard-bytes:{bi}", "hazard"
     for j in range(part, n, nparts):
         reader = gt.READERS[j % 5]
         while True:
